@@ -221,7 +221,7 @@ func (e *Engine) loadContractFile(path, pkgShort string) error {
 			if len(w) != 3 {
 				return fmt.Errorf("%s:%d: ghostvar needs name and sort", path, l.line)
 			}
-			srt := map[string]string{"int": SInt, "bool": SBool, "seq": SSeq, "ref": SRef, "bytes": "bytes"}[w[2]]
+			srt := map[string]string{"int": SInt, "bool": SBool, "seq": SSeq, "ref": SRef, "bytes": "bytes", "refmap": SMapRI}[w[2]]
 			if srt == "" {
 				return fmt.Errorf("%s:%d: unknown ghost sort %s", path, l.line, w[2])
 			}
